@@ -1,0 +1,100 @@
+//go:build verif
+// +build verif
+
+/*
+ * Tencent is pleased to support the open source community by making TKEStack available.
+ *
+ * Copyright (C) 2012-2019 Tencent. All Rights Reserved.
+ *
+ * Licensed under the Apache License, Version 2.0 (the "License"); you may not use
+ * this file except in compliance with the License. You may obtain a copy of the
+ * License at
+ *
+ * https://opensource.org/licenses/Apache-2.0
+ *
+ * Unless required by applicable law or agreed to in writing, software
+ * distributed under the License is distributed on an "AS IS" BASIS, WITHOUT
+ * WARRANTIES OF ANY KIND, either express or implied.  See the License for the
+ * specific language governing permissions and limitations under the License.
+ */
+
+// Entry points for the deterministic simulator in /verif. This file is compiled only with `-tags verif`,
+// adds identifiers and changes no existing line. Nothing here contains policy logic: the constructor wires
+// a PolicyManager to handles and listers given by the caller instead of exec-backed handles and client-go
+// informers, and the wrappers expose the unexported steps of a synchronisation one by one.
+package policy
+
+import (
+	"k8s.io/client-go/kubernetes"
+	corev1Lister "k8s.io/client-go/listers/core/v1"
+	networkingv1Lister "k8s.io/client-go/listers/networking/v1"
+	"k8s.io/client-go/tools/cache"
+	"tkestack.io/galaxy/pkg/utils/ipset"
+	utiliptables "tkestack.io/galaxy/pkg/utils/iptables"
+)
+
+// verifSyncedInformer stands in for the pod informer of initInformers: PolicyManager only ever asks it
+// HasSynced(). Every other method of the embedded (nil) interface panics, which the simulator reports as
+// harness trouble.
+type verifSyncedInformer struct {
+	cache.SharedIndexInformer
+	synced bool
+}
+
+func (i verifSyncedInformer) HasSynced() bool { return i.synced }
+
+// VerifNew builds a PolicyManager around the given handles and listers. No informer is created or started;
+// podInformerOnce is pre-fired so that startPodInformerFactory (AddPolicy, syncNetworkPolices) is a no-op.
+// podInformerSynced is what the stand-in pod informer answers to HasSynced(): true selects the lister branch
+// of syncPods, false the branch that lists pods through client.
+func VerifNew(ipsetHandle ipset.Interface, iptableHandle utiliptables.Interface, client kubernetes.Interface,
+	podLister corev1Lister.PodLister, namespaceLister corev1Lister.NamespaceLister,
+	policyLister networkingv1Lister.NetworkPolicyLister, hostName string, podInformerSynced bool) *PolicyManager {
+	pm := &PolicyManager{
+		client:            client,
+		ipsetHandle:       ipsetHandle,
+		iptableHandle:     iptableHandle,
+		hostName:          hostName,
+		podLister:         podLister,
+		namespaceLister:   namespaceLister,
+		policyLister:      policyLister,
+		podCachedInformer: verifSyncedInformer{synced: podInformerSynced},
+		quitChan:          make(chan struct{}),
+	}
+	pm.podInformerOnce.Do(func() {})
+	return pm
+}
+
+// VerifSyncNetworkPolices runs the first step of a synchronisation: list policies, resolve them against
+// the listers and replace the in-memory policy list.
+func (p *PolicyManager) VerifSyncNetworkPolices() { p.syncNetworkPolices() }
+
+// VerifSyncNetworkPolicyRules runs the second step: syncRules (ipsets, then policy chains, then stale sets)
+// for the in-memory policy list.
+func (p *PolicyManager) VerifSyncNetworkPolicyRules() { p.syncNetworkPolicyRules() }
+
+// VerifSyncPods runs the third step: SyncPodChains for every pod of this node.
+func (p *PolicyManager) VerifSyncPods() { p.syncPods() }
+
+// VerifSyncRules calls syncRules for the in-memory policy list and returns its error.
+func (p *PolicyManager) VerifSyncRules() error {
+	p.Lock()
+	policies := p.policies
+	p.Unlock()
+	return p.syncRules(policies)
+}
+
+// VerifSyncIptables calls syncIptables (policy chains only) for the in-memory policy list.
+func (p *PolicyManager) VerifSyncIptables() error {
+	p.Lock()
+	policies := p.policies
+	p.Unlock()
+	return p.syncIptables(policies)
+}
+
+// VerifPolicyCount returns the number of policies held in memory.
+func (p *PolicyManager) VerifPolicyCount() int {
+	p.Lock()
+	defer p.Unlock()
+	return len(p.policies)
+}
